@@ -9,6 +9,7 @@ import C02 as _c02
 ID = 'C01'
 MODEL_ID = 'ARGS'
 HARNESS = A.HARNESS
+INTERNAL_COMPARABLE = False   # behind '##' the harness prints exception class / texts, the driver a note: never equal
 RULE = ('a case = random well-formed configuration (2-6 arguments of the modelled kinds, keys with shared prefixes) + a '
         'valid abstract line + one legal spelling drawn from the grammar (short/long key, abbreviation, "=", glued, '
         'separate, flag groups, element lists and free values for multi-value arguments); each line is spelled 4 '
